@@ -161,7 +161,7 @@ fn c_reset_case(ctx: &mut Ctx, a: &[u8], b: &[u8], level: i32, seed: u64) {
 }
 
 fn gen_b(ctx: &mut Ctx, zlib: bool, into_pre: bool) -> (Vec<u8>, String) {
-    let cfg = GenCfg { max_tokens: *ctx.rng.pick(&[20usize, 300, 2000]), max_blocks: 4, zlib, pre_len: if into_pre { 32768 } else { 0 }, big: false };
+    let cfg = GenCfg { max_tokens: *ctx.rng.pick(&[20usize, 300, 2000]), max_blocks: 4, zlib, pre_len: if into_pre { 32768 } else { 0 }, big: false, heavy: ctx.rng.chance(1, 6) };
     let g = sgen::gen_stream(&mut ctx.rng, &cfg);
     (g.bytes, g.features.join(","))
 }
